@@ -14,7 +14,6 @@ import (
 
 	beacon "github.com/oasisprotocol/oasis-core/go/beacon/api"
 	"github.com/oasisprotocol/oasis-core/go/common/crypto/signature"
-	"github.com/oasisprotocol/oasis-core/go/common/node"
 	cmt "github.com/oasisprotocol/oasis-core/go/consensus/cometbft/api"
 	registryState "github.com/oasisprotocol/oasis-core/go/consensus/cometbft/apps/registry/state"
 	schedulerState "github.com/oasisprotocol/oasis-core/go/consensus/cometbft/apps/scheduler/state"
@@ -465,6 +464,3 @@ func (m *VRFMonitor) Report(rep Reporter) {
 		rep.Count("vrf.committee_recomputations_skipped", int64(m.RecomputeSkipped))
 	}
 }
-
-// recompute is filled in by vrf_recompute.go.
-var _ = node.RoleComputeWorker
